@@ -228,6 +228,15 @@ func c01NewWorld(t *testing.T, tr *Trace, rng *Rng) *c01World {
 	}
 	tr.Line("vault.begin")
 	w.emitProducts()
+	// a sponsor funds the apps' liquidation reserve so that under-water auctions can close
+	sponsor := c01Addr(200)
+	for _, a := range w.apps {
+		amt := sdk.NewInt(1_000_000_000_000_000)
+		w.fund(sponsor, aD, amt)
+		if !w.deliver(liq2types.NewMsgAppReserveFundsRequest(sponsor.String(), a, aD, sdk.NewCoin(w.denomOf[aD], amt))) {
+			t.Fatal("cannot fund the app reserve")
+		}
+	}
 	return w
 }
 
@@ -341,7 +350,9 @@ func c01Outcome(ok bool) string {
 	return "err"
 }
 
-func (w *c01World) state() {
+func (w *c01World) state() { w.stateKind("vault.state") }
+
+func (w *c01World) stateKind(kind string) {
 	k := w.app.VaultKeeper
 	var vs, ss, ms, bs, sup []string
 	for _, v := range k.GetVaults(w.ctx) {
@@ -376,17 +387,23 @@ func (w *c01World) state() {
 		}
 		// principal at seizure = DebtToken - interest - closing fee is not stored; the harness records it at seizure time
 		if rec, ok := c01Seized[l.OriginalVaultId]; ok && rec.world == w {
-			lk = append(lk, fmt.Sprintf("%d:%d:%s:%s", l.OriginalVaultId, l.ExtendedPairId, rec.in, rec.out))
+			lk = append(lk, fmt.Sprintf("%d:%d:%s:%s:%s", l.OriginalVaultId, l.ExtendedPairId, rec.in, rec.out, rec.debt))
 		}
 	}
-	w.tr.Line("vault.state", "v="+strings.Join(vs, ","), "s="+strings.Join(ss, ","), "lk="+strings.Join(lk, ","), "m="+strings.Join(ms, ","),
+	sort.Slice(lk, func(i, j int) bool {
+		var a, b int
+		fmt.Sscanf(lk[i], "%d:", &a)
+		fmt.Sscanf(lk[j], "%d:", &b)
+		return a < b
+	})
+	w.tr.Line(kind, "v="+strings.Join(vs, ","), "s="+strings.Join(ss, ","), "lk="+strings.Join(lk, ","), "m="+strings.Join(ms, ","),
 		"len="+u(k.GetLengthOfVault(w.ctx)), "nv="+u(k.GetIDForVault(w.ctx)), "ns="+u(k.GetIDForStableVault(w.ctx)),
 		"bal="+strings.Join(bs, ","), "sup="+strings.Join(sup, ","))
 }
 
 type c01SeizedRec struct {
-	world   *c01World
-	in, out sdk.Int
+	world         *c01World
+	in, out, debt sdk.Int
 }
 
 var c01Seized = map[uint64]c01SeizedRec{}
@@ -438,6 +455,23 @@ func (w *c01World) fund(user sdk.AccAddress, asset uint64, amt sdk.Int) {
 		w.t.Fatal(err)
 	}
 	w.tr.Line("vault.msg", "fund", fmt.Sprint(w.acct(user.String())), u(asset), amt.String(), "-", "-", "esm=0;past=0;brk=0;pin=-;pout=-;iota=0", "ok")
+}
+
+func (w *c01World) openAuctions() []auctionsV2types.Auction {
+	var out []auctionsV2types.Auction
+	for _, a := range w.app.NewaucKeeper.GetAuctions(w.ctx) {
+		out = append(out, a)
+	}
+	return out
+}
+
+func (w *c01World) assetByDenom(denom string) uint64 {
+	for id, d := range w.denomOf {
+		if d == denom {
+			return id
+		}
+	}
+	return 0
 }
 
 func (w *c01World) vaultsOf(user string) []vaulttypes.Vault {
@@ -611,6 +645,35 @@ func (w *c01World) oneOp() {
 			ok := w.deliver(&vaulttypes.MsgWithdrawStableMintRequest{From: user.String(), AppId: app, ExtendedPairVaultId: p.id, Amount: amt, StableVaultId: sid})
 			emit("stableWithdraw", un, u(app), u(p.id), u(sid), amt.String(), env, ok)
 		}
+	case c < 56 && r.Chance(50) && len(w.openAuctions()) > 0:
+		// a bidder buys out the auction of a seized vault with one large market bid: the auction closes and settles
+		auc := w.openAuctions()
+		a := auc[r.Intn(len(auc))]
+		var lockedOrig uint64
+		for _, l := range w.app.NewliqKeeper.GetLockedVaults(w.ctx) {
+			if l.LockedVaultId == a.LockedVaultId && l.AppId == a.AppId {
+				lockedOrig = l.OriginalVaultId
+			}
+		}
+		bid := a.DebtToken.Amount.MulRaw(3)
+		debtAsset := w.assetByDenom(a.DebtToken.Denom)
+		bal := w.app.BankKeeper.GetBalance(w.ctx, user, a.DebtToken.Denom).Amount
+		if bal.LT(bid) {
+			w.fund(user, debtAsset, bid.Sub(bal))
+			w.state()
+		}
+		okk := w.deliver(&auctionsV2types.MsgPlaceMarketBidRequest{AuctionId: a.AuctionId, Bidder: user.String(), Amount: sdk.NewCoin(a.DebtToken.Denom, bid)})
+		_, err := w.app.NewaucKeeper.GetAuction(w.ctx, a.AuctionId)
+		closed := okk && err != nil
+		w.tr.Count(fmt.Sprintf("op:marketbid:accepted=%v:closed=%v", okk, closed))
+		if closed && lockedOrig != 0 {
+			w.tr.Line("vault.msg", "settle", u(lockedOrig), "-", "-", "-", "-", "esm=0;past=0;brk=0;pin=-;pout=-;iota=0", "ok")
+			w.stateKind("vault.state.settle")
+		} else {
+			// a partial fill moves only auction-module and bidder balances; re-synchronise through a settlement-style line
+			w.tr.Line("vault.msg", "donate", "99", "0", "0", "-", "-", "esm=0;past=0;brk=0;pin=-;pout=-;iota=0", "err")
+			w.stateKind("vault.state.bid")
+		}
 	case c < 50 && r.Chance(35):
 		// anyone asks the second-generation liquidation module to liquidate a vault (after a collateral price crash, often)
 		v, ok := pickVault()
@@ -631,7 +694,13 @@ func (w *c01World) oneOp() {
 		_, still := w.app.VaultKeeper.GetVault(w.ctx, v.Id)
 		w.tr.Count(fmt.Sprintf("op:liquidate:accepted=%v:seized=%v", okk, !still))
 		if okk && !still {
-			c01Seized[v.Id] = c01SeizedRec{world: w, in: v.AmountIn, out: v.AmountOut}
+			debt := sdk.ZeroInt()
+			for _, l := range w.app.NewliqKeeper.GetLockedVaults(w.ctx) {
+				if l.OriginalVaultId == v.Id && l.InitiatorType == "vault" {
+					debt = l.DebtToken.Amount // principal + interest + closing fee at seizure
+				}
+			}
+			c01Seized[v.Id] = c01SeizedRec{world: w, in: v.AmountIn, out: v.AmountOut, debt: debt}
 			emit("seize", u(v.Id), "-", "-", "-", "-", env, true)
 		} else {
 			w.state()
